@@ -39,6 +39,7 @@ func runC02(r *Run) {
 	c02ViaProxy(r)
 	c02ReusedMessage(r)
 	topoSweep(r, "stream")
+	c01SharedChain(r)
 	c02HttpManyStreams(r)
 	c02DemuxLongBurst(r)
 	c02CutMidStream(r)
